@@ -107,6 +107,15 @@ def _run_contract_task_inner(task):
                               sha=info.get("source_sha256"), lines=info.get("source_lines")),
                     secs=time.time() - t0, stats=dict(smt.STATS))
     except Exception as e:
+        from .interp import PyRaise
+        if isinstance(e, PyRaise):
+            # the contract text or the pre-state builder raised under the interpreter (typically: the code no longer has an attribute or
+            # function the contract names).  That is a contract out of step with the code, not a verdict: the scenarios of this task are
+            # UNDECIDED (soft failure, like a timeout) and the other contracts of the property still decide.
+            exc = e.exc
+            which = c.name if names is None else f"{c.name} scenarios {names[0]}..{names[-1]}"
+            return dict(idx=idx, ok=False, timeout=True, tb="", secs=time.time() - t0,
+                        error=f"spec-error: {which}: the contract text or its pre-state raised {exc.tname}{tuple(exc.args)!r} under the interpreter")
         return dict(idx=idx, ok=False, error=f"{type(e).__name__}: {e}", tb=traceback.format_exc(), secs=time.time() - t0)
 
 
